@@ -45,7 +45,11 @@ func fetchKeys(iterator func(string) ([]string, string, error), keyBatchChan cha
 		}
 
 		if len(ks) == 0 {
-			break
+			if next == "" {
+				break
+			}
+			// a page may come out empty after filtering (e.g. only index files): keep scanning
+			continue
 		}
 
 		select {
